@@ -55,6 +55,7 @@ def main():
             dst = os.path.join(WT, crate, "tests", name + ".rs")
             patch = os.path.join(VERIF, "seeded", sid, "patch.diff")
             sh("git checkout -- . && git clean -fdq -e _out")
+            os.makedirs(os.path.dirname(dst), exist_ok=True)
             shutil.copy(src, dst)
             spec = "-p %s --test %s" % (crate, name)
             rec = {"id": sid, "demo_cmd": "cargo test --offline %s" % spec, "head": subprocess.check_output(["git", "-C", WT, "rev-parse", "--short", "HEAD"], text=True).strip()}
